@@ -44,8 +44,10 @@ PROPS["C17"] = dict(
 
 PROPS["C11"] = dict(
     modules=["Hub.Props.C11"],
-    gens=["c11", "c17empty"],
-    rule="random borrow/return sequences (5 job ids, pools 0..2 fullsync / 0..3 incremental) against the real raffle, state compared after "
+    gens=["c11", "c17empty", "c11verify"],
+    rule="(c11.verify) generated job definitions (1-3 triggers of type cron/onchange/unknown, job types, schedules, monitored datasets, error handler lists with known, unknown and duplicate "
+         "types) through the scheduler's own verify: accepted iff the model's verify, and every accepted definition has its per-entity handlers initialised on every trigger; "
+         "random borrow/return sequences (5 job ids, pools 0..2 fullsync / 0..3 incremental) against the real raffle, state compared after "
          "every request; non-trivial = at least two grants and one refusal; distinct = distinct sequences",
     trusted=["goja, cron/jobrunner and goroutine scheduling are outside the model", "panic recovery of cron/manual runs is jobrunner's"],
     assumptions=["a ticket is returned exactly once, by the run that holds it (defer in job.Run, checked as a regenerated fact)"],
